@@ -176,7 +176,8 @@ def cut_scope_grammar(rng):
     n = rng.randint(2, 3)
     inner = ('choice', [option(i == n - 1) for i in range(n)])
     wrap = rng.choice(['group', 'group', 'opt', 'rep', 'named', 'skipgroup', 'posrep', 'posjoin', 'plain-group', 'named-plain-group',
-                       'look-cut', 'neglook-cut', 'skipto-cut', 'cut-then-nested'])
+                       'look-cut', 'neglook-cut', 'skipto-cut', 'cut-then-nested', 'rep-cut-neglook', 'posrep-cut-neglook', 'join-cut-neglook',
+                       'rep-cut-rulefail'])
     t1, t2 = rng.choice(toks), rng.choice(toks)
     cutseq = rng.choice([('seq', [('tok', t1), 'cut', ('tok', t2)]), ('seq', [('tok', t1), 'cut']), ('seq', [('group', ('seq', [('tok', t1), 'cut'])), ('tok', t2)])])
     inner_e = {'group': ('group', inner), 'opt': ('opt', inner), 'rep': ('rep', False, None, False, inner),
@@ -191,19 +192,35 @@ def cut_scope_grammar(rng):
                'skipto-cut': ('skipto', ('group', cutseq)),
                # a cut, then a nested construct that succeeds, then a failure: the commit must survive the nested scope
                'cut-then-nested': ('seq', [('tok', t1), 'cut', rng.choice([('opt', ('tok', t2)), ('rep', False, None, False, ('tok', t2)),
-                                                                           ('group', ('choice', [('tok', t2), ('tok', 'y')]))])])}[wrap]
+                                                                           ('group', ('choice', [('tok', t2), ('tok', 'y')]))])])}.get(wrap)
     alt1 = ('seq', [inner_e, ('tok', 'x'), 'eof'])
+    extra_texts, extra_rules = [], []
+    if wrap in ('rep-cut-neglook', 'posrep-cut-neglook', 'join-cut-neglook', 'rep-cut-rulefail'):
+        # a LATER iteration passes a cut and then fails - by a negative lookahead, or inside a called rule - where the text
+        # would go on matching what follows the repetition: the repetition must fail, not end quietly
+        t3 = rng.choice([t for t in toks if t != t2] or toks)
+        if wrap == 'rep-cut-rulefail':
+            body = ('seq', [('tok', t1), 'cut', ('call', 'tail')])
+            extra_rules = [('tail', [], ('seq', [('look', True, ('tok', t2)), ('tok', t3)]))]
+        else:
+            body = ('seq', [('tok', t1), 'cut', ('look', True, ('tok', t2)), ('tok', t3)])
+        inner_e = {'rep-cut-neglook': ('rep', False, None, False, body), 'posrep-cut-neglook': ('rep', True, None, False, body),
+                   'join-cut-neglook': ('rep', True, ('tok', ','), False, body), 'rep-cut-rulefail': ('rep', False, None, False, body)}[wrap]
+        alt1 = ('seq', [inner_e, ('opt', ('tok', ',')), ('tok', t1), ('tok', t2), 'eof'])
+        extra_texts = [f'{t1} {t3} {t1} {t2}', f'{t1} {t3} , {t1} {t2}', f'{t1} {t3} {t1} {t3} {t1} {t2}', f'{t1} {t2}', f'{t1} {t3} {t1} {t3}']
     alts = [alt1]
     for _ in range(rng.randint(1, 2)):
         alts.append(('seq', [('tok', rng.choice(toks)), ('tok', rng.choice(['y', 'x', 'a'])), 'eof']))
     if rng.random() < 0.3:
         alts.append(('seq', [('rep', False, None, False, ('tok', rng.choice(toks))), 'eof']))
-    g = {'rules': [('start', [], ('choice', alts))], 'directives': {}, 'keywords': []}
-    if rng.random() < 0.4:      # the same through a rule call
+    g = {'rules': [('start', [], ('choice', alts))] + extra_rules, 'directives': {}, 'keywords': []}
+    if rng.random() < 0.4 and not extra_texts:      # the same through a rule call
         g['rules'] = [('start', [], ('choice', [('seq', [('call', 'inner'), ('tok', 'x'), 'eof'])] + alts[1:])), ('inner', [], inner_e)]
     words = toks + ['x', 'y']
     # every text of one or two words (what is needed to commit in the inner scope and fail right after it), and some longer ones
     texts = set(words) | {f'{a} {b}' for a in words for b in words} | {' '.join(rng.choice(words) for _ in range(3)) for _ in range(8)}
+    if extra_texts:
+        texts = set(list(sorted(texts))[::3]) | set(extra_texts)
     return g, sorted(texts)
 
 
